@@ -50,6 +50,9 @@ pub struct Scenario {
     pub stderr_may_be_nonempty: bool,
     /// whether X2/X3 (delivery equality with --paging never, selection model) apply
     pub check_selection: bool,
+    /// coverage-floor scenario: evaluated fault-free only
+    #[serde(default)]
+    pub light: bool,
 }
 
 #[derive(Clone, Debug, Serialize, Deserialize, PartialEq)]
@@ -359,9 +362,10 @@ fn stub_exists(name: &str) -> bool {
 
 /// Reference model of the documented pager selection.
 pub fn pager_model(cli: Option<&str>, gitcfg: Option<&str>, delta_pager: Option<&str>, bat_pager: Option<&str>, pager: Option<&str>) -> PagerModel {
+    let base = |p: &str| -> String { p.rsplit('/').next().unwrap_or(p).to_string() };
     let user = |v: &str, source: &str| -> PagerModel {
         let w = split_words(v);
-        let name = w[0].clone();
+        let name = base(&w[0]);
         if !stub_exists(&name) {
             return PagerModel { name: None, args: ArgsRule::DeltaChoice, source: source.into() };
         }
@@ -384,7 +388,7 @@ pub fn pager_model(cli: Option<&str>, gitcfg: Option<&str>, delta_pager: Option<
     // BAT_PAGER / PAGER: only the program is taken; its arguments are delta's to choose
     let generic = |v: &str, source: &str, replace_more_most: bool| -> PagerModel {
         let w = split_words(v);
-        let mut name = w[0].clone();
+        let mut name = base(&w[0]);
         if replace_more_most && (name == "more" || name == "most") {
             name = "less".into();
         }
@@ -652,7 +656,7 @@ pub fn gen_scenario_full(seed: u64, idx: usize, big: bool, big_stderr: bool, hug
         spec.env.push(("PAGER".into(), "mypager".into()));
     }
     spec.pager = Some(pg);
-    Scenario { name: format!("s{}", idx), kind: kind.into(), sub, spec, paging, expect_exit, tokens, pager_model: model, stderr_may_be_nonempty: stderr_may, check_selection: check_sel }
+    Scenario { name: format!("s{}", idx), kind: kind.into(), sub, spec, paging, expect_exit, tokens, pager_model: model, stderr_may_be_nonempty: stderr_may, check_selection: check_sel, light: false }
 }
 
 // ---------------------------------------------------------------------------
@@ -827,6 +831,7 @@ pub fn main_c18(env: &Env, tier: &str, seed: u64, replay: Option<&str>) -> i32 {
     }
     // fixed scenarios: every one-shot flag and every wrapped command at least once, whatever the seed
     scenarios.extend(fixed_scenarios(seed));
+    scenarios.extend(explicit_cells(seed));
 
     // phase 1: fault-free reference runs (also evaluated: X1-X4)
     let none = Fault::None;
@@ -867,7 +872,7 @@ pub fn main_c18(env: &Env, tier: &str, seed: u64, replay: Option<&str>) -> i32 {
     let mut tasks: Vec<Task> = Vec::new();
     for (si, s) in scenarios.iter().enumerate() {
         let refi = &refs[si].0;
-        if !refi.ok {
+        if !refi.ok || s.light {
             continue;
         }
         let mut rng = Rng::new(mix(seed, &[tag("C18"), tag("faults"), si as u64]));
@@ -1068,6 +1073,85 @@ pub fn main_c18(env: &Env, tier: &str, seed: u64, replay: Option<&str>) -> i32 {
     }
     println!("C18 {}: {} scenarios, {} runs, {} distinct fault points reached, {} reported violations, {:.1}s", tier, scenarios.len(), ev.evaluations, ev.distinct_nontrivial, reported.len(), ev.wall_s);
     exit
+}
+
+/// Seed-independent coverage floor for the dimensions in which a defect is narrow: every
+/// (pager source x value class) cell and every (operand class x git version x status) cell of
+/// `delta A B`.  Evaluated fault-free only (selection, delivery, exit status, waiting).
+pub fn explicit_cells(seed: u64) -> Vec<Scenario> {
+    let mut out = Vec::new();
+    let mut rng = Rng::new(mix(seed, &[tag("C18"), tag("cells")]));
+    let gp = gen::GenParams { flavor: gen::Flavor::Git, sections: vec![gen::SectionKind::Modified], max_hunks: 1, pivot: 2, max_run: 3, with_commit_preamble: false, multibyte: false, no_newline_marker: false, similar_pairs: false };
+    let lines = gen::generate(&mut rng, &gp);
+    let diff = gen::to_bytes(&lines);
+    let tokens = body_tokens(&lines);
+    let pg = |code: i32| PagerSetup { names: vec!["less".into(), "mypager".into(), "more".into(), "most".into(), "otherpager".into()], mode: "gate".into(), exit_code: code, less_version: "less 581.2 (PCRE2 regular expressions)".into() };
+    // A. pager selection
+    let values: &[(&str, &str)] = &[("less-bare", "less"), ("less-args", "less -FX"), ("less-fullpath", "@BIN@/less"), ("less-fullpath-args", "@BIN@/less -X"), ("other", "mypager"), ("other-args", "mypager --opt x"), ("other-fullpath", "@BIN@/otherpager"), ("more", "more"), ("most", "most"), ("missing", "nosuchpager")];
+    for source in ["--pager", "delta.pager", "DELTA_PAGER", "BAT_PAGER", "PAGER", "default"] {
+        for (vclass, value) in values {
+            if source == "default" && *vclass != "less-bare" {
+                continue;
+            }
+            for paging in ["always", "auto"] {
+                let mut spec = RunSpec::default();
+                spec.plan = Plan::basic(mix(seed, &[tag("cellhash"), out.len() as u64]));
+                spec.args = vec!["--paging".into(), paging.into(), "--no-gitconfig".into(), "--width".into(), "100".into()];
+                spec.stdin = diff.clone().into();
+                let (mut cli, mut gitcfg, mut dp, mut bp, mut pp) = (None, None, None, None, None);
+                match source {
+                    "--pager" => {
+                        spec.args.insert(0, value.to_string());
+                        spec.args.insert(0, "--pager".into());
+                        cli = Some(*value);
+                    }
+                    "delta.pager" => {
+                        spec.args.retain(|a| a != "--no-gitconfig");
+                        spec.gitconfig = Some(format!("[delta]\n\tpager = {}\n", value));
+                        gitcfg = Some(*value);
+                    }
+                    "DELTA_PAGER" => {
+                        spec.env.push(("DELTA_PAGER".into(), value.to_string()));
+                        dp = Some(*value);
+                    }
+                    "BAT_PAGER" => {
+                        spec.env.push(("BAT_PAGER".into(), value.to_string()));
+                        bp = Some(*value);
+                    }
+                    "PAGER" => {
+                        spec.env.push(("PAGER".into(), value.to_string()));
+                        pp = Some(*value);
+                    }
+                    _ => {}
+                }
+                // a lower-priority source that must lose
+                if source != "PAGER" && source != "default" && rng.chance(1, 2) {
+                    spec.env.push(("PAGER".into(), "otherpager -z".into()));
+                    pp = Some("otherpager -z");
+                }
+                let m = pager_model(cli, gitcfg, dp, bp, pp);
+                spec.pager = Some(pg(0));
+                out.push(Scenario { name: format!("cell-pager-{}-{}-{}", source, vclass, paging), kind: "stdin".into(), sub: format!("sel-{}-{}", source.trim_start_matches('-'), vclass), spec, paging: paging.into(), expect_exit: 0, tokens: tokens.clone(), pager_model: Some(m), stderr_may_be_nonempty: false, check_selection: true, light: true });
+            }
+        }
+    }
+    // B. delta A B: operand class x git version x status
+    for (oclass, oa, ob) in [("regular", "a.txt", "b.txt"), ("subst-first", "/dev/fd/63", "b.txt"), ("subst-second", "a.txt", "/proc/self/fd/12"), ("subst-both", "/dev/fd/63", "/dev/fd/62")] {
+        for gv in ["git version 2.39.5", "git version 2.42.0", "git version 2.45.1", "git version 1.9.1"] {
+            for st in [0, 1, 2] {
+                let mut spec = RunSpec::default();
+                spec.plan = Plan::basic(mix(seed, &[tag("cellhash2"), out.len() as u64]));
+                spec.args = vec!["--paging".into(), "never".into(), "--no-gitconfig".into(), "--width".into(), "100".into(), oa.into(), ob.into()];
+                spec.files = vec![("a.txt".into(), Blob::from("one\n")), ("b.txt".into(), Blob::from("two\n"))];
+                let outp = if st == 1 { diff.clone() } else { Vec::new() };
+                let stderr = if st >= 2 { "error: Could not access 'x'\n" } else { "" };
+                spec.child = Some(ChildSetup { names: vec!["git".into(), "diff".into()], stdout: outp.into(), stderr: stderr.into(), stderr_first: false, exit: st, git_version: gv.into() });
+                spec.pager = Some(pg(0));
+                out.push(Scenario { name: format!("cell-diff2-{}-{}-{}", oclass, gv.replace(' ', "_"), st), kind: "diff2".into(), sub: format!("ops-{}-status{}", oclass, st), spec, paging: "never".into(), expect_exit: st, tokens: if st == 1 { tokens.clone() } else { vec![] }, pager_model: None, stderr_may_be_nonempty: st >= 2, check_selection: false, light: true });
+            }
+        }
+    }
+    out
 }
 
 pub fn fixed_scenarios(seed: u64) -> Vec<Scenario> {
